@@ -71,6 +71,9 @@ def register(m):
       "    exec(compiled, {}, context)  # pylint: disable=exec-used\n", ("D7", "ERROR"), note="repaired in 9fdd2c0 (the digest anchor of the replica also changes: a refusal is acceptable)")
     m("C16", "b4-solve-for-scalar-first-root-only-regression", "symplyphysics/core/experimental/solvers/__init__.py",
       "        if any(equation == False for equation in equations):  # pylint: disable=singleton-comparison\n            continue\n", "", "Q4", note="the genuine defect repaired in 5c7e12c")
+    m("C15", "b4-convert-vector-rewrites-components-regression", "symplyphysics/core/experimental/coordinate_systems/convert.py",
+      "    return vector.subs(conversion_at_point, simultaneous=True)\n", "    return vector.subs(conversion, simultaneous=True).subs(new_point.coordinates, simultaneous=True)\n", "X4",
+      note="the genuine defect repaired in f48be70")
     # C09 N1: factories hand out fresh systems
     m("C09", "b2-transform-returns-argument", CSYS,
       ") -> CoordinateSystem:\n    new_coord_system = from_system.coord_system.create_new(",
@@ -137,11 +140,11 @@ def register(m):
     CVT = "symplyphysics/core/experimental/coordinate_systems/convert.py"
     m("C15", "b2-convert-point-sequential-regression", CVT, "        expr.subs(point.coordinates, simultaneous=True) for expr in conversion.values()", "        expr.subs(point.coordinates) for expr in conversion.values()", "X4",
       note="the genuine defect repaired in f7b2249")
-    m("C15", "b2-convert-vector-sequential-regression", CVT, "    return new_vector.subs(new_point.coordinates, simultaneous=True)\n",
-      "    for new_scalar, new_coordinate in new_point.coordinates.items():\n        new_vector = new_vector.subs(new_scalar, new_coordinate)\n\n    return new_vector\n", "X4")
+    m("C15", "b2-convert-vector-sequential-regression", CVT, "        old_vector: new_vectors.subs(new_point.coordinates, simultaneous=True)\n",
+      "        old_vector: new_vectors.subs(new_point.coordinates)\n", "X4")
     m("C15", "b2-convert-point-loop-form-ok", CVT, "    new_coordinates = [\n        expr.subs(point.coordinates, simultaneous=True) for expr in conversion.values()\n    ]",
       "    new_coordinates = []\n    for expr in conversion.values():\n        new_coordinates.append(expr.subs(point.coordinates, simultaneous=True))", "SILENT")
-    m("C15", "b2-convert-vector-old-point-coordinates", CVT, "    return new_vector.subs(new_point.coordinates, simultaneous=True)\n", "    return new_vector.subs(old_point.coordinates, simultaneous=True)\n", "X4")
+    m("C15", "b2-convert-vector-old-point-coordinates", CVT, "        old_vector: new_vectors.subs(new_point.coordinates, simultaneous=True)\n", "        old_vector: new_vectors.subs(old_point.coordinates, simultaneous=True)\n", "X4")
     # C16 Q4 / Q5
     m("C16", "b2-solve-check-disabled", SOLV, '    flags["dict"] = True\n', '    flags["dict"] = True\n    flags.setdefault("check", False)\n', "Q4")
     m("C16", "b2-first-vector-decides", VE, "            if is_vector_expr(arg):\n                n_vectors += 1\n                continue\n", "            if is_vector_expr(arg):\n                return True\n", ("Q5", ))
